@@ -1326,7 +1326,13 @@ impl BufferParser for Parser {
                         };
                         let ch = AttributedChar::new(self.last_char, caret.get_attribute());
                         // repeating more often than the screen has cells only scrolls the same character through
-                        let num = min(num, buf.terminal_state.get_width().saturating_mul(buf.terminal_state.get_height()));
+                        let mut num = min(num, buf.terminal_state.get_width().saturating_mul(buf.terminal_state.get_height()));
+                        if self.macro_nesting > 0 {
+                            // inside a macro the repeated characters are part of the expansion and use up its budget,
+                            // otherwise a macro full of REPs prints a screen per 7 characters.
+                            num = num.clamp(0, self.macro_budget.min(i32::MAX as usize) as i32);
+                            self.macro_budget -= num as usize;
+                        }
                         (0..num).for_each(|_| buf.print_char(current_layer, caret, ch));
                         return Ok(CallbackAction::Update);
                     }
@@ -1474,7 +1480,7 @@ impl BufferParser for Parser {
 }
 
 /// Macros may invoke macros (even themselves): limit the nesting depth and the number of
-/// characters one invocation can expand to.
+/// characters one invocation can expand to (including the characters a REP in the macro repeats).
 const MAX_MACRO_NESTING: usize = 16;
 const MAX_MACRO_EXPANSION: usize = 0x1_0000;
 
